@@ -1,11 +1,11 @@
 #!/bin/sh
 # tools/try_seed_wt.sh <Cxx> [seed-dir-name] [tier] : like try_seed.sh, but on a scratch worktree of /repo HEAD (KV_REPO), so that
-# several seeds can be tried in parallel and /repo itself is never touched. Evidence is not rewritten.
+# several seeds can be tried in parallel and /repo itself is never touched. Evidence is not rewritten. TRY_SEED=<n> selects the check's random seed.
 id=$1; d=${2:-$1}; tier=${3:-quick}
 wt=/tmp/wt/try_$d
 git -C /repo worktree add --detach $wt HEAD >/dev/null 2>&1 || exit 2
 ( cd $wt && git apply /verif/seeded/$d/patch.diff ) || { echo "patch does not apply: $d"; git -C /repo worktree remove --force $wt; exit 2; }
-cd /verif && KV_REPO=$wt ./check $id --tier $tier > /tmp/try_seed_$d.log 2>&1; rc=$?
+cd /verif && KV_REPO=$wt ./check $id --tier $tier --seed ${TRY_SEED:-0} > /tmp/try_seed_$d.log 2>&1; rc=$?
 git -C /repo worktree remove --force $wt
 echo "check $id on seeded/$d: exit $rc"; grep -A2 "^VIOLATION" /tmp/try_seed_$d.log | cut -c1-260 | head -9; tail -1 /tmp/try_seed_$d.log
 exit $rc
